@@ -17,7 +17,7 @@ EXPLANATION = ("all 26 zero/sign patterns of the axis are enumerated (the measur
                "the real code is 2e-15 for component ratios <= 10 and 7e-9 at ratio 1e9")
 ASSUMPTIONS = ["axis components with |c| outside [1e-12,1e12] or ratio > 1e9 are not judged "
                "(x*x under/overflow)"]
-MAGS = (2.0 ** -10, 0.5, 1.0, 2.0, 1e3)
+MAGS = (1e-7, 1e-4, 2.0 ** -10, 0.5, 1.0, 2.0, 1e3)
 ANGLES = (0.0, math.pi / 6, -math.pi / 6, 2 * math.pi / 3, -2 * math.pi / 3,
           math.radians(109.5), -math.radians(109.5), math.pi / 2, -math.pi / 2, math.pi,
           -math.pi, 2 * math.pi, math.radians(120.0), math.radians(90), 1e-3)
@@ -98,7 +98,8 @@ def run_case(case, tier):
     elif kind == "random":
         ex = None
         for _ in range(case["n"]):
-            axis = [rng.choice((1, -1)) * 10 ** rng.uniform(-3, 3) for _ in range(3)]
+            scale = 10 ** rng.uniform(-8, 3) if rng.random() < 0.3 else 1.0      # short axes (nearly parallel bonds) too
+            axis = [rng.choice((1, -1)) * scale * 10 ** rng.uniform(-3, 3) for _ in range(3)]
             if rng.random() < 0.15:
                 axis[rng.randrange(3)] = 0.0
             theta = rng.uniform(-2 * math.pi, 2 * math.pi)
